@@ -1,35 +1,38 @@
 #!/usr/bin/env python3
 """dev tool: run a property's check against a seeded change and record the outcome in meta.json.
 usage: seeded.py <seeded id> <property> [--tier quick|thorough] [--only substr]
-Applies seeded/<id>/patch.diff to /repo, runs the check, ALWAYS restores /repo afterwards."""
-import json, os, subprocess, sys, time
+The change is applied to a scratch git worktree of /repo (never to /repo itself); the check runs with
+VERIF_REPO pointing at it and its own build/evidence directories, so /repo, /verif/evidence and checks
+running against /repo are not disturbed. The worktree and its build output are removed afterwards."""
+import json, os, shutil, subprocess, sys, time
 sid, prop = sys.argv[1], sys.argv[2]
 extra = sys.argv[3:]
 d = "/verif/seeded/" + sid
-st = subprocess.run(["git", "-C", "/repo", "status", "--short", "--untracked-files=no"], stdout=subprocess.PIPE, text=True).stdout.strip()
-if st:
-    sys.exit("/repo has local modifications, refusing: " + st)
-# the evidence file of the property must keep describing the UNCHANGED tree: save and restore it
-import shutil
-evf = "/verif/evidence/%s.json" % prop
-if os.path.exists(evf):
-    shutil.copy(evf, evf + ".keep")
-subprocess.run(["git", "-C", "/repo", "apply", d + "/patch.diff"], check=True)
+wt = "/tmp/seedwt-%s-%s" % (sid, prop)
+subprocess.run(["git", "-C", "/repo", "worktree", "remove", "--force", wt], stdout=subprocess.DEVNULL, stderr=subprocess.DEVNULL)
+subprocess.run(["git", "-C", "/repo", "worktree", "add", "-q", "--detach", wt, "HEAD"], check=True)
+env = dict(os.environ)
+env["VERIF_REPO"] = wt
 t0 = time.time()
 try:
-    p = subprocess.run(["python3-vt", "/verif/run.py", prop] + extra, cwd="/verif", stdout=subprocess.PIPE, stderr=subprocess.STDOUT, text=True)
+    subprocess.run(["git", "-C", wt, "apply", d + "/patch.diff"], check=True)
+    p = subprocess.run(["python3-vt", "/verif/run.py", prop] + extra, cwd="/verif", env=env, stdout=subprocess.PIPE, stderr=subprocess.STDOUT, text=True)
 finally:
-    subprocess.run(["git", "-C", "/repo", "checkout", "--", "."], check=True)
-    if os.path.exists(evf + ".keep"):
-        shutil.move(evf + ".keep", evf)
+    subprocess.run(["git", "-C", "/repo", "worktree", "remove", "--force", wt], stdout=subprocess.DEVNULL, stderr=subprocess.DEVNULL)
+    import hashlib
+    alt = "/verif/.build/alt-" + hashlib.sha1(os.path.abspath(wt).encode()).hexdigest()[:8]
+    # keep replay transcripts, drop the (large) build output
+    for sub in os.listdir(alt) if os.path.isdir(alt) else []:
+        if sub not in ("replay", "evidence", "logs"):
+            shutil.rmtree(os.path.join(alt, sub), ignore_errors=True)
 out = p.stdout
-lines = [l for l in out.splitlines() if l.startswith("VIOLATION") or l.startswith("INCONCLUSIVE") or "] obligations=" in l or "counterexample" in l]
+lines = [l for l in out.splitlines() if l.startswith("VIOLATION") or l.startswith("INCONCLUSIVE") or l.startswith("NOT-DECIDED") or "] obligations=" in l or "counterexample" in l]
 print("\n".join(lines[-12:]))
 meta = json.load(open(d + "/meta.json")) if os.path.exists(d + "/meta.json") else {}
 runs = meta.setdefault("check_runs", [])
 runs.append({"property": prop, "args": extra, "exit": p.returncode, "wall_s": round(time.time() - t0, 1),
              "violation_lines": [l for l in lines if l.startswith("VIOLATION")][:3],
              "failing_obligations": sorted({l.split("|")[0].replace("counterexample:", "").strip() for l in lines if "counterexample" in l})[:6]})
-meta["status"] = "caught" if any(r["exit"] == 1 for r in runs) else "missed-or-inconclusive"
+meta["status_auto"] = "caught" if any(r["exit"] == 1 for r in runs) else "missed-or-inconclusive"
 json.dump(meta, open(d + "/meta.json", "w"), indent=1)
-print("exit", p.returncode, "->", meta["status"])
+print("exit", p.returncode, "->", meta["status_auto"])
